@@ -18,6 +18,6 @@ CONSTANTS
   Quotes <- Quotes1
 SPECIFICATION LiveSpec
 VIEW View
-INVARIANTS Inv
+INVARIANTS Inv Calm StatedImpliesExact
 PROPERTIES Release
 CHECK_DEADLOCK FALSE
